@@ -159,7 +159,7 @@ def run(ctx, replay=None):
     exhaustive = ['q', 'g2', 't1120'] if quick else ['q', 'q3', 'g2', 't111x', 't1120', 't3111', 't1111', 'm2', 'w2']
     graph_cfgs = {'q': 14, 'g2': 14, 't1120': 400} if quick else \
                  {'q': 14, 'q3': 16, 'g2': 14, 't111x': 400, 't1120': 400, 't3111': 400, 't1111': 400}
-    max_paths = {'q': 1500, 'g2': 900} if quick else {'q3': 3000}
+    max_paths = {'q': 1500, 'g2': 900} if quick else {'q3': 7000}
     walks = {'q': 300, 'g2': 300} if quick else {'q3': 2500, 'g2': 800}
     old_cfgs = ['oldDup'] if quick else list(OLD)
     all_traces = []
